@@ -796,7 +796,30 @@ def truthiness_overrides(P, root='Part'):
     if not P.has_cls(root):
         return []
     r = P.cls(root)
-    return [(c, m) for cs in P.by_name.values() for c in cs if r in c.mro for m in ('__bool__', '__len__') if m in c.methods]
+    out = []
+    for cs in P.by_name.values():
+        for c in cs:
+            if r not in c.mro:
+                continue
+            # the method Python consults for this class: __bool__ first (nearest in the MRO), __len__ only when no class of the MRO defines __bool__
+            def nearest(m):
+                for k in c.mro:
+                    if m in k.methods:
+                        return k
+                return None
+            kb, kl = nearest('__bool__'), nearest('__len__')
+            if kb is not None:
+                fn = kb.methods['__bool__']
+                fn = fn[0] if isinstance(fn, (list, tuple)) else fn
+                fn = getattr(fn, 'node', fn)
+                body = [x for x in fn.body if not (isinstance(x, ast.Expr) and isinstance(x.value, ast.Constant))]
+                always = len(body) == 1 and isinstance(body[0], ast.Return) and isinstance(body[0].value, ast.Constant) and body[0].value.value is True
+                if not always and kb is c:
+                    out.append((c, '__bool__'))
+                continue            # `def __bool__(self): return True` keeps every instance truthy whatever __len__ says
+            if kl is c:
+                out.append((c, '__len__'))
+    return out
 
 
 # ---- contradiction rule: an attribute the class itself treats as optional ---------------------------------------------------------
